@@ -20,6 +20,8 @@ def main() -> int:
     if sh("git", "-C", "/repo", "status", "--porcelain").stdout.strip():
         print("REFUSING: /repo has uncommitted changes")
         return 2
+    if sys.argv[1:2] == ["--mutants"]:
+        return mutants()
     names = sys.argv[1:] or sorted(p.name for p in (ROOT / "seeded").iterdir() if (p / "patch.diff").exists())
     path = ROOT / "seeded" / "detection.json"
     table = json.loads(path.read_text()) if path.exists() else {}
@@ -61,6 +63,34 @@ def main() -> int:
     path.write_text(json.dumps(table, indent=1, sort_keys=True) + "\n")
     missed = [n for n, e in table.items() if e.get("status") != "detected"]
     print("not detected / not applicable:", missed)
+    return 0
+
+
+def mutants() -> int:
+    """Same for mutants/<ID>/*.patch (re-introduced defects and hand-written mutations)."""
+    table = {}
+    for patch in sorted((ROOT / "mutants").glob("*/*.patch")):
+        prop = patch.parent.name
+        name = f"{prop}/{patch.name}"
+        if sh("git", "-C", "/repo", "apply", "--check", str(patch)).returncode != 0:
+            table[name] = {"status": "patch does not apply to /repo HEAD"}
+            print(name, table[name]["status"])
+            continue
+        sh("git", "-C", "/repo", "apply", str(patch))
+        try:
+            res = sh(str(ROOT / "check"), prop, "--tier", "quick")
+            out = res.stdout + res.stderr
+            sigs = sorted(set(re.findall(r"^  ([A-Za-z0-9_:@./<>-]+): ", out, flags=re.M)))
+            table[name] = {"status": "detected" if res.returncode == 1 else ("MISSED" if res.returncode == 0 else "harness-error"),
+                           "exit": res.returncode, "signatures": sigs}
+        finally:
+            sh("git", "-C", "/repo", "checkout", "--", ".")
+            for f in (ROOT / "replays").glob("*/new-*.json"):
+                f.unlink()
+            sh("git", "-C", str(ROOT), "checkout", "--", "evidence")
+        print(name, table[name]["status"], table[name].get("signatures"))
+    (ROOT / "mutants" / "detection.json").write_text(json.dumps(table, indent=1, sort_keys=True) + "\n")
+    print("not detected:", [n for n, e in table.items() if e["status"] != "detected"])
     return 0
 
 
